@@ -631,7 +631,7 @@ func (c *Configuration) AddOrUpdateGlobalConfiguration(gc *conf_v1.GlobalConfigu
 	problems = append(problems, listenerProblems...)
 
 	hostChanges, hostProblems := c.rebuildHosts()
-	changes = append(changes, hostChanges...)
+	changes = deletesFirst(append(changes, hostChanges...))
 	problems = append(problems, hostProblems...)
 
 	return changes, problems, validationErr
@@ -652,7 +652,7 @@ func (c *Configuration) DeleteGlobalConfiguration() ([]ResourceChange, []Configu
 	problems = append(problems, listenerProblems...)
 
 	hostChanges, hostProblems := c.rebuildHosts()
-	changes = append(changes, hostChanges...)
+	changes = deletesFirst(append(changes, hostChanges...))
 	problems = append(problems, hostProblems...)
 
 	return changes, problems
@@ -690,7 +690,7 @@ func (c *Configuration) AddOrUpdateTransportServer(ts *conf_v1.TransportServer) 
 	if c.isTLSPassthroughEnabled {
 		hostChanges, hostProblems := c.rebuildHosts()
 
-		changes = append(changes, hostChanges...)
+		changes = deletesFirst(append(changes, hostChanges...))
 		problems = append(problems, hostProblems...)
 	}
 
@@ -741,7 +741,7 @@ func (c *Configuration) DeleteTransportServer(key string) ([]ResourceChange, []C
 	if c.isTLSPassthroughEnabled {
 		hostChanges, hostProblems := c.rebuildHosts()
 
-		changes = append(changes, hostChanges...)
+		changes = deletesFirst(append(changes, hostChanges...))
 		problems = append(problems, hostProblems...)
 	}
 
@@ -1375,6 +1375,26 @@ func createResourceChangesForListeners(
 	// in a delete change, will be processed only after the config of the delete change is removed.
 	// That will prevent any listener collisions in the NGINX config in the state between the changes.
 	return append(deleteChanges, changes...)
+}
+
+// deletesFirst orders changes that were collected from more than one rebuild so that all Delete changes
+// come before all AddOrUpdate changes, keeping the relative order within each group. Each rebuild orders
+// its own changes that way; the concatenation of two rebuilds must be ordered again, otherwise a resource
+// that moves from one table to the other (a TransportServer edited from TLS Passthrough to a TCP listener)
+// gets its new config written first and then removed by the Delete of its old role.
+func deletesFirst(changes []ResourceChange) []ResourceChange {
+	var deletes []ResourceChange
+	var updates []ResourceChange
+
+	for _, c := range changes {
+		if c.Op == Delete {
+			deletes = append(deletes, c)
+		} else {
+			updates = append(updates, c)
+		}
+	}
+
+	return append(deletes, updates...)
 }
 
 func squashResourceChanges(changes []ResourceChange) []ResourceChange {
